@@ -243,11 +243,12 @@ SHARED_CLAUSES = {
                 "and non-numbers: tests by identity (`is DisplayType.none`, `units is Units.px`) in the snapshot and the writers rely on that;",
   "chains": " (FIN-chain) chained referential styling, interpreted on small style graphs: own values win over referenced ones, later references over earlier ones, references of references are followed, a style reached along two paths is merged on both, unknown references are skipped and a loop of references ends;",
   "rubykids": " (FIN-rubykids) Ruby.push_children and Rtc.push_children, interpreted on sample child sequences, accept exactly the TTML2 ruby content models (rb rt | rb rp rt rp | rbc rtc | rbc rtc rtc; rt+ | rp rt+ rp);",
+  "timing": " (ID-time) ContentElement.set_begin / set_end, interpreted on rationals with large denominators, 0 and None, store the offset given and get_begin / get_end return it unchanged;",
   "truthy": " (LINT-n) no result of a getter declared Optional[number] (get_begin, get_end, ...) and no parameter annotated so is tested by truthiness: 0 is a legal offset distinct from None;",
 }
 
 
-def check_shared_helpers(ctx, color=False, text=False, validators=False, truthy_modules=None, chains=False, rubykids=False):
+def check_shared_helpers(ctx, color=False, text=False, validators=False, truthy_modules=None, chains=False, rubykids=False, timing=False):
   """Value-level functions of the shared modules (utils, model, style_properties) that the anchored code relies on."""
   from ..rules import probes, lint as _lint
   if color:
@@ -259,6 +260,9 @@ def check_shared_helpers(ctx, color=False, text=False, validators=False, truthy_
   if validators:
     n = probes.check_validators_strict(ctx)
     ctx.floor("VAL-strict", "validator probes decided", n, 60)
+  if timing:
+    n = probes.check_timing_setters(ctx)
+    ctx.floor("ID-time", "offset probes decided", n, 10)
   if rubykids:
     n = probes.check_ruby_children(ctx)
     ctx.floor("FIN-rubykids", "ruby child sequences decided", n, 25)
